@@ -224,6 +224,14 @@ fn ref_range(model: &Kv, start: Option<&[u8]>, end: Option<&[u8]>, desc: bool) -
 fn check_range(store: &dyn Storage, model: &Kv, start: Option<&[u8]>, end: Option<&[u8]>, desc: bool, depth: usize) -> Result<usize, Failure> {
     let order = if desc { Order::Descending } else { Order::Ascending };
     let got: Vec<(Vec<u8>, Vec<u8>)> = store.range(start, end, order).collect();
+    let gk: Vec<Vec<u8>> = store.range_keys(start, end, order).collect();
+    let gv: Vec<Vec<u8>> = store.range_values(start, end, order).collect();
+    ensure!(
+        gk == got.iter().map(|(k, _)| k.clone()).collect::<Vec<_>>() && gv == got.iter().map(|(_, v)| v.clone()).collect::<Vec<_>>(),
+        "C06:range-keys-values-disagree",
+        "range({:?},{:?},desc={}) at depth {} lists {} entries but range_keys {} and range_values {}",
+        start.map(hexs), end.map(hexs), desc, depth, got.len(), gk.len(), gv.len()
+    );
     let want = ref_range(model, start, end, desc);
     // strictly monotone, each key at most once
     for w in got.windows(2) {
